@@ -128,6 +128,21 @@ def fresh_dump(path):
         conn.close()
 
 
+class _AnyDatetimeMeta(type):
+    """The stand-in classes below replace the name `datetime` in a module of the tree under test; code there may well ask
+    isinstance(x, datetime) about ordinary datetime objects, which must stay true."""
+
+    def __instancecheck__(cls, obj):
+        import datetime as _dt
+
+        return isinstance(obj, _dt.datetime)
+
+    def __subclasscheck__(cls, sub):
+        import datetime as _dt
+
+        return issubclass(sub, _dt.datetime)
+
+
 class Tracer:
     """Calls `on_statement(sql)` before every SQL statement run on the writer connection."""
 
@@ -170,7 +185,7 @@ class FakeClock:
         self.orig = mod.datetime
         clock = self
 
-        class _FakeDT(_dt.datetime):
+        class _FakeDT(_dt.datetime, metaclass=_AnyDatetimeMeta):
             @classmethod
             def now(cls, tz=None):
                 clock.calls += 1
@@ -274,7 +289,7 @@ def pinned_now(module_names, us):
     import datetime as _dt
     import importlib
 
-    class _Pinned(_dt.datetime):
+    class _Pinned(_dt.datetime, metaclass=_AnyDatetimeMeta):
         @classmethod
         def now(cls, tz=None):
             base = _dt.datetime.fromtimestamp(us / 10**6, _dt.timezone.utc)
